@@ -62,7 +62,7 @@ CHECKS["C03"] = dict(
     technique="TLA+ transcription of Prosser's macro expansion algorithm with hide sets (CMacro) as oracle, TLC "
               "invariants for termination and stability; TLC-enumerated tables x invocations replayed through "
               "MacroExpander.expand (#define and -D definitions) and #if truth",
-    text="TLC checks on every table of the catalogues (17 x 9 x 9 definitions) and every invocation line that the "
+    text="TLC checks on every table of the catalogues (18 x 9 x 10 definitions) and every invocation line that the "
          "reference expansion terminates within its fuel and is stable under re-expansion; every well-formed case is "
          "expanded by the real MacroExpander with the table given by #define directives and by -D strings and compared "
          "token by token (token boundaries; string literals character by character), after a redefinition of one macro, "
